@@ -1,4 +1,85 @@
-(* C02 — placeholder until the invariant / refinement theorems are added (see below). *)
-From Coq Require Import List Bool Arith.
-From SQ Require Import Base.ListUtil Net.Model Net.Refusal Net.Capacity Net.Handles.
+(* C02 — qubit conservation and bookkeeping integrity at every quiescent point (Model V).
+   `reachable s` = s is the state after ANY list of operations (failed ones included) on ANY network. *)
+From Coq Require Import List Bool Arith Permutation.
+From SQ Require Import Base.ListUtil Net.Model Net.Refusal Net.Handles Net.Inv Net.InvStep Net.Bookkeeping Net.Population.
 Import ListNotations.
+
+(* the full inductive invariant (Net/Inv.v: node_ok for every node, backing bijection, ghost identities) *)
+Theorem C02_invariant_every_reachable_state : forall caps ops, ginv (run (init_net caps) ops).
+Proof. exact reachable_inv. Qed.
+Print Assumptions C02_invariant_every_reachable_state.
+
+Theorem C02_invariant_inductive : forall s o, ginv s -> ginv (fst (step s o)).
+Proof. exact step_ginv. Qed.
+Print Assumptions C02_invariant_inductive.
+
+(* each held qubit is backed by exactly one simulated qubit that really exists at the node it names as simulator *)
+Theorem C02_held_is_backed : forall s i q, reachable s -> In q (virt (nth_node s i)) ->
+  v_simNode q < length (nodes s) /\
+  exists x, In x (sims (nth_node s (v_simNode q))) /\ s_simNum x = v_simNum q /\
+            (forall x', In x' (sims (nth_node s (v_simNode q))) -> s_simNum x' = v_simNum q -> x' = x).
+Proof. exact held_is_backed. Qed.
+Print Assumptions C02_held_is_backed.
+
+(* no simulated qubit backs two held qubits ... *)
+Theorem C02_backing_injective : forall s i j q q', reachable s ->
+  In q (virt (nth_node s i)) -> In q' (virt (nth_node s j)) ->
+  v_simNode q = v_simNode q' -> v_simNum q = v_simNum q' -> i = j /\ q = q'.
+Proof. exact backing_injective. Qed.
+Print Assumptions C02_backing_injective.
+
+(* ... or none *)
+Theorem C02_backing_onto : forall s j x, reachable s -> In x (sims (nth_node s j)) ->
+  exists i q, In q (virt (nth_node s i)) /\ v_simNode q = j /\ v_simNum q = s_simNum x.
+Proof. exact backing_onto. Qed.
+Print Assumptions C02_backing_onto.
+
+(* the positions of the simulated qubits of each register are exactly 0..k-1 for a register of size k *)
+Theorem C02_positions_exact : forall s i r, reachable s -> In r (regs (nth_node s i)) ->
+  Permutation (positions (nth_node s i) (r_num r)) (seq 0 (r_n r)).
+Proof. exact positions_exact. Qed.
+Print Assumptions C02_positions_exact.
+
+(* qubit identifiers are unique per node *)
+Theorem C02_ids_unique_per_node : forall s i, reachable s ->
+  NoDup (map v_num (virt (nth_node s i))) /\ NoDup (map s_simNum (sims (nth_node s i))) /\
+  NoDup (map r_num (regs (nth_node s i))).
+Proof. exact ids_unique_per_node. Qed.
+Print Assumptions C02_ids_unique_per_node.
+
+(* population: creating adds exactly one ... *)
+Theorem C02_create_adds_one : forall s n v j, snd (step s (ONew n)) = Ok v ->
+  held (fst (step s (ONew n))) j = if Nat.eqb j n then S (held s j) else held s j.
+Proof. exact held_new. Qed.
+Print Assumptions C02_create_adds_one.
+
+(* ... destructive measurement removes exactly one ... *)
+Theorem C02_destructive_measure_removes_one : forall s h c v vi q j,
+  hid_inv s -> find_handle s h = Some (vi, q) -> snd (step s (OMeas h false c)) = Ok v ->
+  held (fst (step s (OMeas h false c))) j = if Nat.eqb j vi then held s j - 1 else held s j.
+Proof. exact held_meas_destructive. Qed.
+Print Assumptions C02_destructive_measure_removes_one.
+
+(* ... sending moves exactly one from sender to receiver ... *)
+Theorem C02_send_moves_one : forall s h t v vi q j,
+  hid_inv s -> find_handle s h = Some (vi, q) -> vi <> t -> snd (step s (OSend h t)) = Ok v ->
+  held (fst (step s (OSend h t))) j =
+  if Nat.eqb j vi then held s j - 1 else if Nat.eqb j t then S (held s j) else held s j.
+Proof. exact held_send. Qed.
+Print Assumptions C02_send_moves_one.
+
+(* ... and nothing else changes the population of any node: gates, in-place measurements, and every operation
+   that does not return a value (refused, ignored) *)
+Theorem C02_gate2_keeps_population : forall s h1 h2 g j, held (fst (step s (OGate2 h1 h2 g))) j = held s j.
+Proof. exact held_gate2. Qed.
+Print Assumptions C02_gate2_keeps_population.
+Theorem C02_gate1_keeps_population : forall s h g j, held (fst (step s (OGate1 h g))) j = held s j.
+Proof. exact held_gate1. Qed.
+Print Assumptions C02_gate1_keeps_population.
+Theorem C02_inplace_measure_keeps_population : forall s h c j, held (fst (step s (OMeas h true c))) j = held s j.
+Proof. exact held_meas_inplace. Qed.
+Print Assumptions C02_inplace_measure_keeps_population.
+Theorem C02_unsuccessful_keeps_population : forall s o j,
+  (forall v, snd (step s o) <> Ok v) -> held (fst (step s o)) j = held s j.
+Proof. exact held_unchanged_unless_ok. Qed.
+Print Assumptions C02_unsuccessful_keeps_population.
